@@ -86,6 +86,7 @@ class BaseSubProjectTask(BaseTask):
             else datetime.timedelta(minutes=1)
         )
         self.read_json_fil_or_not = read_json_file
+        self.read_json_file = read_json_file
         self.remove_absence_time_list = remove_absence_time_list
         super().__init__(
             name=name,
